@@ -31,6 +31,7 @@ CFG = {
         "Swat4.C15.overlongState_keyed",
         "Swat4.C15.facts_cycle_deadline",
         "Swat4.C15.facts_deadline_is_next_tick",
+        "Swat4.C15.facts_cycle_context",
     ],
     "shards": (4, 16),
     "nontrivial": _nontrivial,
